@@ -7,9 +7,13 @@
 (* trace specification rejects a run that ends otherwise).  This module is *)
 (* the generator for the hostile inputs: per language family an alphabet   *)
 (* of tokens (comment openers and closers, tag fragments, quotes, brackets,*)
-(* newlines, multi-byte characters); TLC enumerates EVERY token sequence   *)
-(* up to MaxLen, the harness feeds each to the real parsers under each     *)
-(* suffix of the family in scan, list and diff mode.                       *)
+(* newlines, multi-byte characters); the input is built one token at a     *)
+(* time (action Extend), so TLC enumerates EVERY token sequence up to      *)
+(* MaxLen as the reachable "building" states without ever constructing the *)
+(* set of all sequences; from each of them the run (action Run) ends in    *)
+(* one of the two terminal states.  The harness feeds each sequence to the *)
+(* real parsers under each suffix of the family in scan, list and diff     *)
+(* mode.  (Size and depth are the business of Deep.tla.)                   *)
 (***************************************************************************)
 EXTENDS Integers, Sequences, FiniteSets, TLC, Json
 
@@ -20,7 +24,7 @@ vars == <<soup, outcome>>
 
 Alphabet ==
   CASE Family = "c"    -> {"open", "close", "line", "docopen", "star", "tag", "endtag", "tagq", "dq", "sq", "lt", "gt", "eq",
-                           "x", "nl", "cr", "mb2", "nbsp", "emoji", "comb", "slash"}
+                           "x", "nl", "cr", "mb2", "nbsp", "emoji", "comb", "slash", "nbcont", "mbcont"}
     [] Family = "hash" -> {"hash", "tag", "endtag", "tagq", "dq", "sq", "lt", "gt", "x", "nl", "crnl", "mb2", "nbsp", "emoji",
                            "comb", "bslash", "tab"}
     [] Family = "xml"  -> {"xopen", "xclose", "dashes", "xopen_short", "xclose_short", "tag", "endtag", "tagq", "dq", "lt", "gt",
@@ -29,16 +33,20 @@ Alphabet ==
                            "mb2", "emoji", "li", "quote", "colon"}
     [] Family = "sql"  -> {"dashes", "open", "close", "tag", "endtag", "sq", "x", "nl", "mb2", "star"}
     [] Family = "diff" -> {"src", "tgt", "hunk1", "hunkdel", "hunkadd", "minus", "plus", "ctx", "nonl", "bodysrc", "bodytgt",
-                           "git", "empty", "badhunk", "tgtnull", "minus_mb", "plus_mb"}
+                           "git", "empty", "badhunk", "tgtnull", "minus_mb", "plus_mb", "samepair", "samepair_nonl"}
 
-\* git never writes a "+++" header without the "---" header before it
+\* git never writes a "+++" header without the "---" header before it (prefix-closed, so it is enforced per token)
 GitPlausible(s) == Family = "diff" =>
                      \A k \in 1..Len(s) : s[k] \in {"tgt", "tgtnull", "bodytgt"} => \E j \in 1..(k - 1) : s[j] \in {"src", "bodysrc"}
-Init == soup \in UNION {[1..n -> Alphabet] : n \in 0..MaxLen} /\ GitPlausible(soup) /\ outcome = "pending"
-\* the run: the only terminal states of the system
-Run(o) == outcome = "pending" /\ o \in {"report", "error"} /\ outcome' = o /\ UNCHANGED soup
-Next == \E o \in {"report", "error"} : Run(o)
+Init == soup = <<>> /\ outcome = "building"
+\* the input grows by one token
+Extend == /\ outcome = "building" /\ Len(soup) < MaxLen
+          /\ \E t \in Alphabet : GitPlausible(Append(soup, t)) /\ soup' = Append(soup, t)
+          /\ UNCHANGED outcome
+\* the run on the input built so far: the only terminal states of the system
+Run(o) == outcome = "building" /\ o \in {"report", "error"} /\ outcome' = o /\ UNCHANGED soup
+Next == Extend \/ \E o \in {"report", "error"} : Run(o)
 Spec == Init /\ [][Next]_vars
-NoCrashState == outcome \in {"pending", "report", "error"}
+NoCrashState == outcome \in {"building", "report", "error"}
 Emit == outcome = "report" => PrintT(<<"CASE", ToJson([family |-> Family, soup |-> soup])>>)
 =============================================================================
